@@ -82,7 +82,7 @@ def leaves_without_loop(b, entry, loop_blocks):
 
 def run(ctx):
     f = ctx.f
-    enc = fn_by_label(f, ENC)
+    enc = with_helpers(fn_by_label(f, ENC))
     if enc is None:
         ctx.ob('CODEC', 'anchor', False, None, 'CompressionCodecState::encode not found')
         return
